@@ -14,7 +14,7 @@ package main
 //   DR/DP <w> <h> …same as R/P… [<style>]                                 RichText.Draw / Text.Draw (soft wrap), Max = w x h;
 //                                                                         DP's 10th field = Text.Style (Fill is compared through the blank cells)
 //   DH <w> <h> …same as R…                                                RichText.Draw with Softwrap = false (hard wrap, ellipsis branch)
-//   DW <maxW> <nlines>                                                    Text.Draw of "a\n"*(nlines-2)+"b\nc" at Max = maxW x 65535 (F216 witness):
+//   DW/DWR <maxW> <nlines>                                                 Text.Draw / RichText.Draw of "a\n"*(nlines-2)+"b\nc" at Max = maxW x 65535 (F216 witness):
 //                                                                         impl = surface size + rows 0..2 only
 //
 // Surfaces: "S<w>x<h>:" then the rows, ';'-terminated, cells comma-joined: a token (style*4096 + id),
@@ -687,14 +687,18 @@ func (pc *plainCase) runDraw(w, h, style int) string {
 // runDW: the F216 witness. nlines lines "a", …, "a", "b", "c" drawn by Text.Draw at Max = maxW x 65535;
 // with `row > Max.Height` as the row guard, row 65535 + 1 wrapped to 0 and lines 65536.. were drawn over
 // rows 0.. . Only the surface size and rows 0..2 are reported.
-func runDW(maxW, nlines int) string {
+func runDW(maxW, nlines int, rich bool) string {
 	if nlines < 2 || nlines > 1<<20 {
 		return "bad-op"
 	}
 	var out string
 	res := guarded(func() {
-		t := text.New(strings.Repeat("a\n", nlines-2) + "b\nc")
-		s, err := t.Draw(drawCtx(maxW, 65535))
+		content := strings.Repeat("a\n", nlines-2) + "b\nc"
+		var w vxfw.Widget = text.New(content)
+		if rich {
+			w = richtext.New([]vaxis.Segment{{Text: content}})
+		}
+		s, err := w.Draw(drawCtx(maxW, 65535))
 		if err != nil {
 			out = "error"
 			return
@@ -919,11 +923,11 @@ func (st *state) rebuild(op []string) (string, string, bool) {
 	}
 	atoi := func(s string) int { v, _ := strconv.Atoi(s); return v }
 	switch op[0] {
-	case "DW":
+	case "DW", "DWR":
 		if len(op) != 3 {
 			return "", "", false
 		}
-		return strings.Join(op, " "), runDW(atoi(op[1]), atoi(op[2])), true
+		return strings.Join(op, " "), runDW(atoi(op[1]), atoi(op[2]), op[0] == "DWR"), true
 	case "P", "DP":
 		if len(op) != 9 && !(op[0] == "DP" && len(op) == 10) {
 			return "", "", false
@@ -1009,7 +1013,8 @@ func run(r *hx.Run) error {
 		maxHardDraw = 4
 	}
 	// F216 witness (also in the corpus): more lines than a uint16 row counter can hold
-	r.Emit("DW 2 65538", runDW(2, 65538))
+	r.Emit("DW 2 65538", runDW(2, 65538, false))
+	r.Emit("DWR 2 65538", runDW(2, 65538, true))
 	r.Count("draw-rowwrap")
 	var rec func(prefix []int, n int)
 	buf := make([]byte, 0, 64)
@@ -1125,6 +1130,34 @@ func run(r *hx.Run) error {
 		}
 	}
 	r.Note("t-random", time.Since(t0).String())
+	t0 = time.Now()
+	// 2b. the long-word split family (F116 shapes): [prefix] + an unbreakable word wider than small widths,
+	// made of wide / opening-punctuation / combining graphemes and letters, followed by a space or hard break
+	// and further short words; widths 0..6 in one op, so every word is split at some width and fits at others
+	nSplit := 3000
+	if r.Thorough {
+		nSplit = 30000
+	}
+	heads := []string{"（", "世", "「", "🔥", "é", "(", "“", "$", "界。", "x⁠"}
+	seps := []string{" ", "\n", " \n", "\n ", "  ", "-", "\t"}
+	for i := 0; i < nSplit; i++ {
+		var sb strings.Builder
+		sb.WriteString(gen.Pick(rng, []string{"", "", "x ", "ab ", "\n", "世 "}))
+		nw := rng.Range(1, 4)
+		for k := 0; k < nw; k++ {
+			if rng.Chance(2, 3) {
+				sb.WriteString(gen.Pick(rng, heads))
+			}
+			sb.WriteString(strings.Repeat(gen.Pick(rng, []string{"a", "b", "世", "é"}), rng.Range(1, 5)))
+			if k < nw-1 || rng.Bool() {
+				sb.WriteString(gen.Pick(rng, seps))
+			}
+		}
+		s := sb.String()
+		st.emitText(s, 0, 6, 0, []int{rng.Intn(3)})
+		r.Count("split-family")
+	}
+	r.Note("t-split-family", time.Since(t0).String())
 	t0 = time.Now()
 	// 3. overflow regime (F45): an unbroken word whose width reaches 2^16
 	over := []int{65536}
